@@ -8,6 +8,9 @@ C05 — property theorems about the interface model (all universally quantified)
   `oldRule_dropped_unused_nchw_input` is a labelled example about the rule before dfda5c9   — input pruning
 * `materialize_prefix`                                                         — input_params only append
 * `rename_exact`, `rename_injective` (= `rename_exact_and_injective`), `rename_keeps_ids` — custom names
+* `run_outs`, `run_outs_length`, `iface_step`, `iface_preserved` — the optimizer's rewiring history keeps count,
+  order and (under the per-step guard) every declaration of the graph outputs
+* `rename_exact_and_injective_after_history` — custom names after ANY rewiring history
 -/
 import J2O.Model.C05
 set_option linter.unusedSimpArgs false
@@ -412,5 +415,173 @@ example : errOf (rename [⟨0, "in_0"⟩, ⟨2, "out"⟩] [(0, "x"), (2, "x")]) 
     "custom names must be globally unique" := by decide
 example : errOf (rename [⟨0, "in_0"⟩, ⟨1, "t"⟩, ⟨2, "out"⟩] [(0, "t")]) =
     "custom names collide with existing names" := by decide
+
+/-! ### the optimizer's rewiring history -/
+
+/-- Where the value that was graph output `v` ends up after a history: the composite of the
+    output-replacing substitutions, in order. -/
+def chase : List Step → Nat → Nat
+  | [], v => v
+  | .rauw old new true :: rest, v => chase rest (substOut old new v)
+  | .rauw _ _ false :: rest, v => chase rest v
+  | .setDecl _ _ :: rest, v => chase rest v
+  | .remove _ :: rest, v => chase rest v
+
+theorem applyStep_outs (s : GState) (st : Step) :
+    (applyStep s st).outs = s.outs.map (chase [st]) := by
+  cases st with
+  | rauw old new o => cases o <;> simp [applyStep, chase]
+  | setDecl v d => simp [applyStep, chase]
+  | remove vs => simp [applyStep, chase]
+
+theorem chase_cons (st : Step) (rest : List Step) (v : Nat) :
+    chase (st :: rest) v = chase rest (chase [st] v) := by
+  cases st with
+  | rauw old new o => cases o <;> simp [chase]
+  | setDecl v d => simp [chase]
+  | remove vs => simp [chase]
+
+/-- **Order and count of the outputs survive every history**: after an arbitrary sequence of
+    `replace_all_uses_with(…, replace_graph_outputs=True)`, re-declarations and node removals,
+    output position `j` holds the image of the original `j`-th output — nothing is dropped,
+    duplicated into a new position, or reordered. -/
+theorem run_outs (h : List Step) : ∀ s : GState, (run s h).outs = s.outs.map (chase h) := by
+  induction h with
+  | nil => intro s; simp [run, chase]
+  | cons st rest ih =>
+    intro s
+    have := ih (applyStep s st)
+    simp only [run, List.foldl_cons] at this ⊢
+    rw [this, applyStep_outs, List.map_map]
+    apply List.map_congr_left
+    intro v _
+    simp [Function.comp, chase_cons st rest v]
+
+theorem run_outs_length (s : GState) (h : List Step) : (run s h).outs.length = s.outs.length := by
+  rw [run_outs]; simp
+
+/-- One guarded step leaves the declared interface as it is. -/
+theorem iface_step (s : GState) (st : Step) (hok : stepOk s st = true) :
+    iface (applyStep s st) = iface s := by
+  cases st with
+  | rauw old new o =>
+    cases o with
+    | false => rfl
+    | true =>
+      simp only [stepOk, Bool.or_eq_true, Bool.not_eq_true', beq_iff_eq] at hok
+      simp only [iface, applyStep, List.map_map]
+      apply List.map_congr_left
+      intro v hv
+      simp only [Function.comp, substOut]
+      split
+      · rename_i e
+        subst e
+        rcases hok with h1 | h2
+        · have : s.outs.contains v = true := by simpa using hv
+          rw [this] at h1; exact absurd h1 (by simp)
+        · exact h2
+      · rfl
+  | setDecl w d =>
+    simp only [stepOk, Bool.or_eq_true, Bool.not_eq_true', beq_iff_eq] at hok
+    simp only [iface, applyStep]
+    apply List.map_congr_left
+    intro v hv
+    split
+    · rename_i e
+      subst e
+      rcases hok with h1 | h2
+      · have : s.outs.contains v = true := by simpa using hv
+        rw [this] at h1; exact absurd h1 (by simp)
+      · exact h2.symm
+    · rfl
+  | remove vs => rfl
+
+/-- **The declared interface is invariant under every guarded history** (any length, any mix of
+    steps): if each step passes `stepOk` in the state it is applied to, the list of declarations
+    of the graph outputs after the optimizer is, position by position, the list before it. -/
+theorem iface_preserved (h : List Step) : ∀ (s s' : GState), runChecked s h = some s' →
+    iface s' = iface s ∧ s'.outs = s.outs.map (chase h) := by
+  induction h with
+  | nil =>
+    intro s s' hr
+    simp only [runChecked, Option.some.injEq] at hr
+    subst hr; simp [chase]
+  | cons st rest ih =>
+    intro s s' hr
+    simp only [runChecked] at hr
+    split at hr
+    · rename_i hok
+      obtain ⟨h1, h2⟩ := ih _ _ hr
+      refine ⟨h1.trans (iface_step s st hok), ?_⟩
+      rw [h2, applyStep_outs, List.map_map]
+      apply List.map_congr_left
+      intro v _
+      simp [Function.comp, chase_cons st rest v]
+    · exact absurd hr (by simp)
+
+
+example : chase [Step.rauw 10 7 true, Step.setDecl 7 ⟨2, []⟩, Step.rauw 7 5 true] 10 = 5 ∧
+    (run ⟨[10, 11, 10], fun _ => none⟩ [Step.rauw 10 7 true, Step.rauw 7 5 true]).outs = [5, 11, 5] := by decide
+
+/-- **Custom output names after an arbitrary rewiring history.**  Whatever the optimizer rewired,
+    when `_apply_custom_io_names_on_ir` is then asked for `names` on the (current) outputs —
+    together with any requests `inPairs` for inputs — and succeeds, then for EVERY output position
+    `j` the value now at that position (the image of the original `j`-th output) carries exactly
+    `names[j]`, all top-graph names are distinct and no value appeared or vanished. -/
+theorem rename_exact_and_injective_after_history (s : GState) (h : List Step)
+    (vals vals' : List Val) (names : List String) (inPairs : List (Nat × String))
+    (hlen : names.length = s.outs.length)
+    (hid : (vals.map (·.id)).Nodup) (hnm : (vals.map (·.name)).Nodup)
+    (hr : rename vals (inPairs ++ (run s h).outs.zip names) = .ok vals') :
+    (∀ j (hj : j < s.outs.length) (hj' : j < names.length), ∀ v' ∈ vals',
+        v'.id = chase h (s.outs[j]) → v'.name = names[j]) ∧
+    (vals'.map (·.name)).Nodup ∧ vals'.map (·.id) = vals.map (·.id) ∧
+    (run s h).outs.length = names.length := by
+  obtain ⟨hex, hinj, hids⟩ := rename_exact_and_injective vals vals' _ hid hnm hr
+  refine ⟨?_, hinj, hids, ?_⟩
+  · intro j hj hj' v' hv' hv
+    apply hex (chase h (s.outs[j])) (names[j]) ?_ v' hv' hv
+    apply List.mem_append_right
+    rw [run_outs]
+    have hz : j < ((s.outs.map (chase h)).zip names).length := by simp; omega
+    have : ((s.outs.map (chase h)).zip names)[j] = (chase h (s.outs[j]), names[j]) := by
+      simp [List.getElem_zip]
+    rw [← this]
+    exact List.getElem_mem hz
+  · rw [run_outs]; simp [hlen]
+
+-- non-vacuity: a transpose-pair fold (output 10 replaced by the refreshed chain end 7), a second
+-- output untouched, then both outputs named
+example :
+    let s : GState := ⟨[10, 11], declOfList [(10, ⟨2, ["B", "3", "4", "5"]⟩), (11, ⟨2, ["3"]⟩),
+                                            (7, ⟨2, ["B", "4", "5", "3"]⟩)]⟩
+    let h := [Step.setDecl 7 ⟨2, ["B", "3", "4", "5"]⟩, Step.rauw 10 7 true, Step.remove [10]]
+    (runChecked s h).isSome = true ∧ (run s h).outs = [7, 11] ∧
+      iface (run s h) = iface s ∧
+      (rename [⟨0, "in_0"⟩, ⟨7, "abs_out"⟩, ⟨11, "sum_out"⟩] ([(0, "x")] ++ (run s h).outs.zip ["a", "b"])).toOption =
+        some [⟨0, "x"⟩, ⟨7, "a"⟩, ⟨11, "b"⟩] := by decide
+
+/-- The guard is what fails when a fold forgets to refresh the chain: the seeded change C05-3 in
+    miniature (the replacing value still carries the transposed dims). -/
+example :
+    let s : GState := ⟨[10], declOfList [(10, ⟨2, ["B", "3", "4", "5"]⟩), (7, ⟨2, ["B", "4", "5", "3"]⟩)]⟩
+    (runChecked s [Step.rauw 10 7 true]).isNone = true ∧
+      iface (run s [Step.rauw 10 7 true]) ≠ iface s := by decide
+
+
+/-- **Refuted full-strength statement (witness observed on the unchanged /repo, known finding
+    F-C05-int-minmax-min).**  Without the guard the invariance is false: in
+    `to_onnx(lambda x: jnp.minimum(x, 0.2), [ShapeDtypeStruct((3,), int32)])` the output is bound
+    FLOAT `[3]` (class of the JAX result) and the stage `propagate_elementwise_shapes` re-declares
+    that graph output INT32 — the step `setDecl 0 ⟨int, ["3"]⟩` on an output, which `stepOk`
+    rejects.  `iface_preserved` is the partial statement (guarded histories). -/
+theorem iface_preserved_needs_guard :
+    ¬ ∀ (s : GState) (st : Step), iface (applyStep s st) = iface s := by
+  intro h
+  have := h ⟨[0], declOfList [(0, ⟨2, ["3"]⟩)]⟩ (.setDecl 0 ⟨1, ["3"]⟩)
+  revert this
+  decide
+
+example : stepOk ⟨[0], declOfList [(0, ⟨2, ["3"]⟩)]⟩ (.setDecl 0 ⟨1, ["3"]⟩) = false := by decide
 
 end J2O.C05
